@@ -51,8 +51,16 @@ HeapOneDirection(pre) ==
 
 Cmp(e, want) == ("panic" \in DOMAIN e \/ e.res # want) => Mismatch(l, e, [res |-> want])
 
+\* the driver takes positions from the implementation's own size(): a position outside the sequence means that
+\* size() was wrong at that moment
+InDomain(e) ==
+    CASE e.ev = "remove_at" -> e.pos < Len(seqs[e.a])
+      [] e.ev \in {"insert_at", "split_at"} -> e.pos <= Len(seqs[e.a])
+      [] OTHER -> TRUE
+
 Step(e) ==
-    CASE e.ev = "reset" -> seqs' = [s \in Slots |-> <<>>]
+    CASE ~InDomain(e) -> Mismatch(l, e, [size_of_sequence |-> Len(seqs[e.a])]) /\ AQuery
+      [] e.ev = "reset" -> seqs' = [s \in Slots |-> <<>>]
       [] e.ev = "from_item" -> AFromItem(e.s, e.c)
       [] e.ev = "merge" -> AMerge(e.a, e.b)
       [] e.ev = "split_at" -> ASplitAt(e.a, e.b, e.pos)
